@@ -241,8 +241,8 @@ Proof.
   - cbn. repeat split; assumption.
   - rewrite batch_eval_cons. unfold mem_batch_run.
     assert (Hinv0 : mem_inv (st c) (mk_mem_batch [] 0 None) (st c) 0).
-    { repeat split; [constructor|reflexivity]. }
-    pose proof (mem_fold_sim (st c) Hs (clock c + 1) (o :: rest) _ _ (stamps c) _ Hinv0 Hops) as H.
+    { repeat split. constructor. }
+    pose proof (mem_fold_sim (st c) (clock c + 1) (o :: rest) _ _ (stamps c) _ Hinv0 Hops) as H.
     destruct (batch_go ByValue (clock c + 1) (st c) (stamps c) 0 (o :: rest)) as [[w' z']|[i a]] eqn:E.
     + destruct H as [b' [Hb' (He & _ & Hso & Hg)]]. rewrite Hb', He. cbn [fst snd batch_proj_ok rclass_eqb andb].
       split; [reflexivity|].
@@ -313,3 +313,543 @@ Proof.
   - intros i Hi. repeat constructor. exact Hi.
   - intros h l ops Hl Hh. apply resolve_nonempty; assumption.
 Defined.
+
+(* ====================================================================================== *)
+(* TiKV                                                                                    *)
+(* ====================================================================================== *)
+
+Definition bop_wnonempty (o : bop) : Prop :=
+  match o with
+  | PutIfNotExist _ v _ | Put _ v _ => v <> []
+  | CAS _ nv _ _ => nv <> []
+  | _ => True
+  end.
+
+Lemma t_set_nonempty p k v : v <> [] -> t_set p k v = inl (set p k (Some v)).
+Proof. destruct v; [congruence|reflexivity]. Qed.
+
+Section TikvBatch.
+Variable s : store.
+
+Definition t_inv (p : pending) (w : store) : Prop := sorted p /\ forall k, t_txn_get s p k = get w k.
+
+Lemma t_txn_get_set p k pv k' : t_txn_get s (set p k pv) k' = if beqb k' k then pv else t_txn_get s p k'.
+Proof.
+  unfold t_txn_get. destruct (beqb k' k) eqn:E.
+  - apply beqb_eq in E. subst. rewrite get_set_same. reflexivity.
+  - apply beqb_neq in E. rewrite get_set_other by exact E. reflexivity.
+Qed.
+
+Lemma t_closure_ok p w z idx nc o w' z' :
+  t_inv p w -> bop_wnonempty o -> bop_step ByValue nc w z o = inl (w', z') ->
+  exists p', t_closure s p idx o = inl p' /\ t_inv p' w'.
+Proof.
+  intros (Hso & Hg) Hne. destruct o as [k v t|k nv ov t|k v t|k|k v stamp]; cbn [bop_step t_closure].
+  - rewrite Hg. destruct (get w k); [discriminate|]. intros [= <- <-]. rewrite t_set_nonempty by exact Hne.
+    eexists. split; [reflexivity|]. split; [apply set_sorted; exact Hso|].
+    intros k'. rewrite t_txn_get_set, get_set_if, Hg. reflexivity.
+  - rewrite Hg. destruct (get w k) as [x|]; [|discriminate]. rewrite (beqb_sym ov x).
+    destruct (beqb x ov); [|discriminate]. intros [= <- <-]. rewrite t_set_nonempty by exact Hne.
+    eexists. split; [reflexivity|]. split; [apply set_sorted; exact Hso|].
+    intros k'. rewrite t_txn_get_set, get_set_if, Hg. reflexivity.
+  - intros [= <- <-]. rewrite t_set_nonempty by exact Hne.
+    eexists. split; [reflexivity|]. split; [apply set_sorted; exact Hso|].
+    intros k'. rewrite t_txn_get_set, get_set_if, Hg. reflexivity.
+  - intros [= <- <-]. eexists. split; [reflexivity|]. split; [apply set_sorted; exact Hso|].
+    intros k'. rewrite t_txn_get_set, get_remove_if, Hg. reflexivity.
+  - unfold delcur_holds. rewrite Hg. destruct (get w k) as [x|]; [|discriminate].
+    destruct (beqb x v); [|discriminate]. intros [= <- <-].
+    eexists. split; [reflexivity|]. split; [apply set_sorted; exact Hso|].
+    intros k'. rewrite t_txn_get_set, get_remove_if, Hg. reflexivity.
+Qed.
+
+Lemma t_closure_fail p w z idx nc o actual :
+  t_inv p w -> bop_step ByValue nc w z o = inr actual ->
+  exists k' v', t_closure s p idx o = inr (RCond, Some (idx, k', v')) /\
+                match bop_is_putnx o with Some k => k' = k /\ v' = canon_opt actual | None => True end.
+Proof.
+  intros (Hso & Hg). destruct o as [k v t|k nv ov t|k v t|k|k v stamp]; cbn [bop_step t_closure bop_is_putnx].
+  - rewrite Hg. destruct (get w k) as [x|]; [|discriminate]. intros [= <-].
+    do 2 eexists. split; [reflexivity|]. cbn. auto.
+  - rewrite Hg. destruct (get w k) as [x|].
+    + rewrite (beqb_sym ov x). destruct (beqb x ov); [discriminate|]. intros _. do 2 eexists. split; [reflexivity|exact I].
+    + intros _. do 2 eexists. split; [reflexivity|exact I].
+  - discriminate.
+  - discriminate.
+  - unfold delcur_holds. rewrite Hg. destruct (get w k) as [x|].
+    + destruct (beqb x v); [discriminate|]. intros _. do 2 eexists. split; [reflexivity|exact I].
+    + intros _. do 2 eexists. split; [reflexivity|exact I].
+Qed.
+
+Lemma t_run_sim nc ops : forall p w z idx, t_inv p w -> Forall bop_wnonempty ops ->
+  match batch_go ByValue nc w z idx ops with
+  | inl (w', z') => exists p', t_run s p (S idx) ops = inl p' /\ t_inv p' w'
+  | inr (i, actual) =>
+      exists k' v', t_run s p (S idx) ops = inr (RCond, Some (S i, k', v')) /\ (idx <= i)%nat /\
+                    match nth_error ops (i - idx) with
+                    | Some o => match bop_is_putnx o with Some k => k' = k /\ v' = canon_opt actual | None => True end
+                    | None => False
+                    end
+  end.
+Proof.
+  induction ops as [|o rest IH]; intros p w z idx Hinv Hne; cbn [batch_go t_run].
+  - exists p. split; [reflexivity|exact Hinv].
+  - inversion Hne as [|? ? Ho Hrest]; subst.
+    destruct (bop_step ByValue nc w z o) as [[w1 z1]|actual] eqn:E.
+    + destruct (t_closure_ok _ _ _ (S idx) _ _ _ _ Hinv Ho E) as [p1 [Hc Hinv1]]. rewrite Hc.
+      specialize (IH p1 w1 z1 (S idx) Hinv1 Hrest).
+      destruct (batch_go ByValue nc w1 z1 (S idx) rest) as [[w' z']|[i a]]; [exact IH|].
+      destruct IH as [k' [v' [Hr [Hle Hn]]]]. exists k', v'. split; [exact Hr|]. split; [lia|].
+      replace (i - idx)%nat with (S (i - S idx)) by lia. exact Hn.
+    + destruct (t_closure_fail _ _ _ (S idx) _ _ _ Hinv E) as [k' [v' [Hc Hp]]]. rewrite Hc.
+      exists k', v'. split; [reflexivity|]. split; [lia|]. rewrite Nat.sub_diag. exact Hp.
+Qed.
+
+End TikvBatch.
+
+Definition tikv_R (s : store) (c : cstore) : Prop := s = st c /\ sorted s /\ sorted (stamps c).
+
+Lemma tikv_batch_sim s c ops : tikv_R s c -> Forall bop_wnonempty ops ->
+  batch_proj_ok ops (batch_eval ByValue c ops) (snd (fst (t_batch s ops))) (snd (t_batch s ops)) = true /\
+  match batch_eval ByValue c ops with
+  | Applied c' => tikv_R (fst (fst (t_batch s ops))) c'
+  | CondFailed _ _ => fst (fst (t_batch s ops)) = s
+  end.
+Proof.
+  intros (-> & Hs & Hz) Hops. destruct ops as [|o rest].
+  - cbn. repeat split; assumption.
+  - rewrite batch_eval_cons. unfold t_batch, t_batch_env.
+    assert (Hinv0 : t_inv (st c) [] (st c)) by (split; [constructor|reflexivity]).
+    pose proof (t_run_sim (st c) (clock c + 1) (o :: rest) _ _ (stamps c) 0%nat Hinv0 Hops) as H.
+    destruct (batch_go ByValue (clock c + 1) (st c) (stamps c) 0 (o :: rest)) as [[w' z']|[i a]] eqn:E.
+    + destruct H as [p' [Hr (Hso & Hg)]]. rewrite Hr. cbn [fst snd batch_proj_ok rclass_eqb andb].
+      split; [reflexivity|].
+      destruct (batch_go_sorted _ _ _ _ _ _ _ _ Hs Hz E) as [Hw' Hz'].
+      assert (Heq : t_apply (st c) p' = w').
+      { apply sorted_ext; [apply apply_writes_sorted; exact Hs|exact Hw'|].
+        intros k. unfold t_apply. rewrite apply_writes_get by exact Hso. rewrite <- Hg. unfold t_txn_get.
+        destruct (get p' k) as [[v|]|]; reflexivity. }
+      rewrite Heq. repeat split; assumption.
+    + destruct H as [k' [v' [Hr [_ Hn]]]]. rewrite Hr. cbn [fst snd batch_proj_ok rclass_eqb andb Nat.eqb].
+      split; [|reflexivity]. rewrite Nat.sub_0_r in Hn.
+      destruct (nth_error (o :: rest) i) as [o'|]; [|contradiction].
+      destruct (bop_is_putnx o') as [k|]; [|reflexivity]. destruct Hn as [-> ->].
+      rewrite beqb_refl. cbn [andb]. destruct (canon_opt a); cbn [opt_eqb]; [apply beqb_refl|reflexivity].
+Qed.
+
+(* the iterator: a prefix of the interval's records, at least min(limit, all) of them *)
+Lemma take_while_all {X} (p : X -> bool) l : (forall x, In x l -> p x = true) -> take_while p l = l.
+Proof.
+  induction l as [|a t IH]; intros H; [reflexivity|]. cbn [take_while].
+  rewrite (H a (or_introl eq_refl)). f_equal. apply IH. intros x Hx. apply H. right; exact Hx.
+Qed.
+
+Lemma take_while_ext {X} (p q : X -> bool) l : (forall x, p x = q x) -> take_while p l = take_while q l.
+Proof. intros H. induction l as [|a t IH]; [reflexivity|]. cbn [take_while]. rewrite H, IH. reflexivity. Qed.
+
+Lemma t_iter_prefix s a b l : sorted s ->
+  exists n, t_iter s a b l = firstn n (iter_all s a b) /\ (min_count l (length (iter_all s a b)) <= n)%nat.
+Proof.
+  intros Hs. unfold t_iter. rewrite !t_iter_out_spec. unfold iter_all, is_fwd, b_is_rev, min_count.
+  destruct (bcmp a b) eqn:C.
+  - (* start = end: the forward branch over an empty native range; the contract's backward interval is empty too *)
+    apply bcmp_eq in C. subst b.
+    assert (E1 : filter (fun kv : bytes * bytes => in_fwd a a (fst kv)) s = []).
+    { apply filter_all_false. intros x _. unfold in_fwd. rewrite bleb_negb_bltb. destruct (bltb (fst x) a); reflexivity. }
+    assert (E2 : bwd s a a = []).
+    { pose proof (iter_all_same s a) as H. unfold iter_all, is_fwd in H. rewrite bcmp_refl in H. exact H. }
+    rewrite E1, E2. cbn [take_while length]. exists 0%nat. unfold lim1. destruct (l =? 0); cbn; split; reflexivity || lia.
+  - unfold fwd. rewrite take_while_all.
+    + destruct (lim1_firstn l (filter (fun kv : bytes * bytes => in_fwd a b (fst kv)) s)) as [n [Hn Hle]]. exists n. split; assumption.
+    + intros x Hx. apply filter_In in Hx as [_ Hx]. unfold in_fwd in Hx. apply andb_true_iff in Hx as [_ Hx].
+      unfold t_border. rewrite bleb_negb_bltb, Hx. reflexivity.
+  - unfold bwd.
+    assert (E : take_while (fun x : bytes * bytes => negb (t_border true b (fst x)))
+                  (rev (filter (fun kv : bytes * bytes => bltb (fst kv) (a ++ [0])) s)) =
+                rev (filter (fun kv : bytes * bytes => in_bwd a b (fst kv)) s)).
+    { rewrite <- (range_bwd fst s a b Hs).
+      rewrite (drop_while_filter (fun x y : bytes * bytes => bcmp (fst y) (fst x) = Lt)).
+      - rewrite filter_rev'.
+        replace (filter (fun x : bytes * bytes => negb (bltb a (fst x))) s)
+          with (filter (fun kv : bytes * bytes => bltb (fst kv) (a ++ [0])) s)
+          by (apply filter_ext; intros x; rewrite bltb_app0, bleb_negb_bltb; reflexivity).
+        apply take_while_ext. intros x. unfold t_border. rewrite bleb_negb_bltb, negb_involutive. reflexivity.
+      - apply ssorted_rev. exact Hs.
+      - intros x y Hxy Hy. apply bltb_lt in Hy. apply bltb_lt. eapply bcmp_lt_trans; eauto. }
+    unfold t_border in E. unfold t_border. 
+    assert (E' : take_while (fun x : bytes * bytes => negb (bleb (fst x) b))
+                  (rev (filter (fun kv : bytes * bytes => bltb (fst kv) (a ++ [0])) s)) =
+                 rev (filter (fun kv : bytes * bytes => in_bwd a b (fst kv)) s)).
+    { rewrite <- E. reflexivity. }
+    rewrite E'.
+    destruct (lim1_firstn l (rev (filter (fun kv : bytes * bytes => in_bwd a b (fst kv)) s))) as [n [Hn Hle]].
+    exists n. split; assumption.
+Qed.
+
+Definition sim_tikv : sim tikv ByValue.
+Proof.
+  refine (mk_sim tikv ByValue tikv_R (fun _ => True) (Forall bop_wnonempty) (Forall sbop_nonempty)
+            _ _ _ _ _ _ _ _ _ _).
+  - intros s c (-> & _). reflexivity.
+  - intros s c k (-> & _). reflexivity.
+  - intros s c a b l (-> & Hs & _). cbn [a_iter tikv].
+    destruct (t_iter_prefix (st c) a b l Hs) as [n [Hn Hle]]. exists n. rewrite Hn.
+    unfold citems. rewrite map_length. split; [|exact Hle].
+    unfold with_stamp0. rewrite firstn_map. reflexivity.
+  - intros; exact I.
+  - intros s c ops HR Hok. apply tikv_batch_sim; assumption.
+  - intros s k. cbn [a_del a_batch tikv]. destruct (t_batch s [Del k]) as [[s' c] cf]. reflexivity.
+  - intros s i. reflexivity.
+  - intros k. repeat constructor.
+  - intros i _. repeat constructor.
+  - intros h l ops Hl _. revert ops. induction l as [|o t IH]; intros ops; cbn [resolve_all].
+    + intros [= <-]. constructor.
+    + inversion Hl as [|? ? Ho Ht]; subst.
+      destruct (resolve h o) as [x|] eqn:Ex; [|discriminate].
+      destruct (resolve_all h t) as [r|] eqn:Er; [|discriminate]. intros [= <-].
+      constructor; [|apply IH; auto].
+      destruct o; cbn [resolve] in Ex; try (injection Ex as <-; exact Ho).
+      destruct h as [i|]; [|discriminate]. injection Ex as <-. exact I.
+Defined.
+
+(* ====================================================================================== *)
+(* Badger                                                                                  *)
+(* ====================================================================================== *)
+
+Definition b_vers (s : bstate) : smap N := map (fun e => (fst e, snd (snd e))) (b_map s).
+
+Lemma get_map_val {V W} (g : V -> W) (m : smap V) k :
+  get (map (fun e => (fst e, g (snd e))) m) k = option_map g (get m k).
+Proof.
+  induction m as [|[k' v'] t IH]; [reflexivity|]. cbn [map get fst snd].
+  destruct (beqb k k'); [reflexivity|exact IH].
+Qed.
+
+Lemma sorted_map_val {V W} (g : V -> W) (m : smap V) : sorted m -> sorted (map (fun e => (fst e, g (snd e))) m).
+Proof. apply ssorted_map. intros x y H. exact H. Qed.
+
+Lemma set_not_nil {V} (p : smap V) k v : set p k v <> [].
+Proof. destruct p as [|[k' v'] t]; cbn [set]; [discriminate|]. destruct (bcmp k k'); discriminate. Qed.
+
+Definition in_seen (seen : list bytes) (k : bytes) : bool := existsb (beqb k) seen.
+
+Section BadgerBatch.
+Variable s : bstate.
+Variable nc : N.
+
+(* pending writes against the contract's working copy (w, z); `seen` are the keys written so far *)
+Definition b_inv (p : pending) (w : store) (z : smap N) (seen : list bytes) : Prop :=
+  sorted p /\
+  (forall k, option_map fst (b_txn_get s p k) = get w k) /\
+  (forall k, get z k = match get p k with
+                       | Some (Some _) => Some nc
+                       | Some None => None
+                       | None => option_map snd (get (b_map s) k)
+                       end) /\
+  (forall k v, get p k = Some (Some v) -> in_seen seen k = true).
+
+Lemma b_txn_get_set p k pv k' :
+  b_txn_get s (set p k pv) k' =
+  if beqb k' k then match pv with Some v => Some (v, b_ts s) | None => None end else b_txn_get s p k'.
+Proof.
+  unfold b_txn_get. destruct (beqb k' k) eqn:E.
+  - apply beqb_eq in E. subst. rewrite get_set_same. reflexivity.
+  - apply beqb_neq in E. rewrite get_set_other by exact E. reflexivity.
+Qed.
+
+Lemma in_seen_cons seen k k' : in_seen seen k' = true -> in_seen (k :: seen) k' = true.
+Proof. unfold in_seen. cbn [existsb]. intros ->. apply orb_true_r. Qed.
+
+Lemma b_inv_write p w z seen k v :
+  b_inv p w z seen -> b_inv (set p k (Some v)) (set w k v) (set z k nc) (k :: seen).
+Proof.
+  intros (Hso & Hg & Hz & Hseen). repeat split.
+  - apply set_sorted. exact Hso.
+  - intros k'. rewrite b_txn_get_set, get_set_if. destruct (beqb k' k); [reflexivity|apply Hg].
+  - intros k'. rewrite !get_set_if. destruct (beqb k' k); [reflexivity|apply Hz].
+  - intros k' v'. rewrite get_set_if. destruct (beqb k' k) eqn:E.
+    + intros _. apply beqb_eq in E. subst. unfold in_seen. cbn [existsb]. rewrite beqb_refl. reflexivity.
+    + intros H. apply in_seen_cons. eapply Hseen; eauto.
+Qed.
+
+Lemma b_inv_delete p w z seen k :
+  b_inv p w z seen -> b_inv (set p k None) (remove w k) (remove z k) seen.
+Proof.
+  intros (Hso & Hg & Hz & Hseen). repeat split.
+  - apply set_sorted. exact Hso.
+  - intros k'. rewrite b_txn_get_set, get_remove_if. destruct (beqb k' k); [reflexivity|apply Hg].
+  - intros k'. rewrite get_set_if, get_remove_if. destruct (beqb k' k); [reflexivity|apply Hz].
+  - intros k' v'. rewrite get_set_if. destruct (beqb k' k); [discriminate|]. apply Hseen.
+Qed.
+
+Definition seen_after (o : bop) (seen : list bytes) : list bytes :=
+  match o with
+  | PutIfNotExist k _ _ | CAS k _ _ _ | Put k _ _ => k :: seen
+  | _ => seen
+  end.
+
+Definition delcur_fresh (o : bop) (seen : list bytes) : Prop :=
+  match o with DelCur k _ _ => in_seen seen k = false | _ => True end.
+
+Lemma b_closure_ok p w z seen idx o w' z' :
+  b_inv p w z seen -> delcur_fresh o seen -> bop_step ByVersion nc w z o = inl (w', z') ->
+  exists p', b_closure s p idx o = inl p' /\ b_inv p' w' z' (seen_after o seen).
+Proof.
+  intros Hinv Hfr. pose proof Hinv as (Hso & Hg & Hz & Hseen).
+  destruct o as [k v t|k nv ov t|k v t|k|k v stamp]; cbn [bop_step b_closure seen_after].
+  - rewrite <- Hg. destruct (b_txn_get s p k) as [[old ver]|]; cbn [option_map]; [discriminate|].
+    intros [= <- <-]. eexists. split; [reflexivity|]. apply b_inv_write. exact Hinv.
+  - rewrite <- Hg. destruct (b_txn_get s p k) as [[val ver]|]; cbn [option_map fst]; [|discriminate].
+    rewrite (beqb_sym ov val). destruct (beqb val ov); [|discriminate].
+    intros [= <- <-]. eexists. split; [reflexivity|]. apply b_inv_write. exact Hinv.
+  - intros [= <- <-]. eexists. split; [reflexivity|]. apply b_inv_write. exact Hinv.
+  - intros [= <- <-]. eexists. split; [reflexivity|]. apply b_inv_delete. exact Hinv.
+  - unfold delcur_holds. rewrite <- Hg, Hz. cbn [delcur_fresh] in Hfr.
+    unfold b_txn_get. destruct (get p k) as [[pv|]|] eqn:Gp.
+    + rewrite (Hseen k pv Gp) in Hfr. discriminate.
+    + cbn [option_map]. discriminate.
+    + destruct (get (b_map s) k) as [[val ver]|]; cbn [option_map fst snd]; [|discriminate].
+      unfold nbeqb. cbn [opt_eqb]. destruct (ver =? stamp); [|discriminate].
+      intros [= <- <-]. eexists. split; [reflexivity|]. apply b_inv_delete. exact Hinv.
+Qed.
+
+Lemma b_closure_fail p w z seen idx o actual :
+  b_inv p w z seen -> delcur_fresh o seen -> bop_step ByVersion nc w z o = inr actual ->
+  exists k' v', b_closure s p idx o = inr (RCond, Some (idx, k', v')) /\
+                match bop_is_putnx o with Some k => k' = k /\ v' = canon_opt actual | None => True end.
+Proof.
+  intros (Hso & Hg & Hz & Hseen) Hfr.
+  destruct o as [k v t|k nv ov t|k v t|k|k v stamp]; cbn [bop_step b_closure bop_is_putnx].
+  - rewrite <- Hg. destruct (b_txn_get s p k) as [[old ver]|]; cbn [option_map fst]; [|discriminate].
+    intros [= <-]. do 2 eexists. split; [reflexivity|]. cbn. auto.
+  - rewrite <- Hg. destruct (b_txn_get s p k) as [[val ver]|]; cbn [option_map fst].
+    + rewrite (beqb_sym ov val). destruct (beqb val ov); [discriminate|]. intros _.
+      do 2 eexists. split; [reflexivity|exact I].
+    + intros _. do 2 eexists. split; [reflexivity|exact I].
+  - discriminate.
+  - discriminate.
+  - unfold delcur_holds. rewrite <- Hg, Hz. cbn [delcur_fresh] in Hfr.
+    unfold b_txn_get. destruct (get p k) as [[pv|]|] eqn:Gp.
+    + rewrite (Hseen k pv Gp) in Hfr. discriminate.
+    + cbn [option_map]. intros _. do 2 eexists. split; [reflexivity|exact I].
+    + destruct (get (b_map s) k) as [[val ver]|]; cbn [option_map fst snd].
+      * unfold nbeqb. cbn [opt_eqb]. destruct (ver =? stamp); [discriminate|]. intros _.
+        do 2 eexists. split; [reflexivity|exact I].
+      * intros _. do 2 eexists. split; [reflexivity|exact I].
+Qed.
+
+Lemma wbd_step o rest seen :
+  written_before_delcur (o :: rest) seen = false ->
+  delcur_fresh o seen /\ written_before_delcur rest (seen_after o seen) = false.
+Proof.
+  destruct o as [k v t|k nv ov t|k v t|k|k v stamp]; cbn [written_before_delcur delcur_fresh seen_after]; auto.
+  intros H. apply orb_false_iff in H. exact H.
+Qed.
+
+Lemma b_run_sim ops : forall p w z seen idx, b_inv p w z seen -> written_before_delcur ops seen = false ->
+  match batch_go ByVersion nc w z idx ops with
+  | inl (w', z') => exists p' seen', b_run s p idx ops = inl p' /\ b_inv p' w' z' seen' /\ (ops <> [] \/ p <> [] -> p' <> [])
+  | inr (i, actual) =>
+      exists k' v', b_run s p idx ops = inr (RCond, Some (i, k', v')) /\ (idx <= i)%nat /\
+                    match nth_error ops (i - idx) with
+                    | Some o => match bop_is_putnx o with Some k => k' = k /\ v' = canon_opt actual | None => True end
+                    | None => False
+                    end
+  end.
+Proof.
+  induction ops as [|o rest IH]; intros p w z seen idx Hinv Hw; cbn [batch_go b_run].
+  - exists p, seen. split; [reflexivity|]. split; [exact Hinv|]. intros [H|H]; [congruence|exact H].
+  - apply wbd_step in Hw as [Hfr Hw].
+    destruct (bop_step ByVersion nc w z o) as [[w1 z1]|actual] eqn:E.
+    + destruct (b_closure_ok _ _ _ _ idx _ _ _ Hinv Hfr E) as [p1 [Hc Hinv1]]. rewrite Hc.
+      assert (Hp1 : p1 <> []).
+      { destruct o; cbn [b_closure] in Hc.
+        - destruct (b_txn_get s p k) as [[? ?]|]; [discriminate|]. injection Hc as <-. apply set_not_nil.
+        - destruct (b_txn_get s p k) as [[? ?]|]; [|discriminate]. destruct (beqb ov b); [|discriminate].
+          injection Hc as <-. apply set_not_nil.
+        - injection Hc as <-. apply set_not_nil.
+        - injection Hc as <-. apply set_not_nil.
+        - destruct (b_txn_get s p k) as [[? ?]|]; [|discriminate]. destruct (n =? stamp); [|discriminate].
+          injection Hc as <-. apply set_not_nil. }
+      specialize (IH p1 w1 z1 (seen_after o seen) (S idx) Hinv1 Hw).
+      destruct (batch_go ByVersion nc w1 z1 (S idx) rest) as [[w' z']|[i a]].
+      * destruct IH as [p' [seen' [Hr [Hi Hn]]]]. exists p', seen'. split; [exact Hr|]. split; [exact Hi|].
+        intros _. apply Hn. right. exact Hp1.
+      * destruct IH as [k' [v' [Hr [Hle Hn]]]]. exists k', v'. split; [exact Hr|]. split; [lia|].
+        replace (i - idx)%nat with (S (i - S idx)) by lia. exact Hn.
+    + destruct (b_closure_fail _ _ _ _ idx _ _ Hinv Hfr E) as [k' [v' [Hc Hp]]]. rewrite Hc.
+      exists k', v'. split; [reflexivity|]. split; [lia|]. rewrite Nat.sub_diag. exact Hp.
+Qed.
+
+End BadgerBatch.
+
+Definition badger_R (s : bstate) (c : cstore) : Prop :=
+  st c = b_store s /\ stamps c = b_vers s /\ clock c = b_ts s /\ sorted (b_map s).
+
+Lemma badger_batch_sim s c ops : badger_R s c -> written_before_delcur ops [] = false ->
+  batch_proj_ok ops (batch_eval ByVersion c ops) (snd (fst (b_batch s ops))) (snd (b_batch s ops)) = true /\
+  match batch_eval ByVersion c ops with
+  | Applied c' => badger_R (fst (fst (b_batch s ops))) c'
+  | CondFailed _ _ => fst (fst (b_batch s ops)) = s
+  end.
+Proof.
+  intros (Hst & Hzs & Hck & Hs) Hops. destruct ops as [|o rest].
+  - cbn. repeat split; assumption.
+  - rewrite batch_eval_cons. unfold b_batch.
+    assert (Hinv0 : b_inv s (clock c + 1) [] (st c) (stamps c) []).
+    { repeat split.
+      - constructor.
+      - intros k. rewrite Hst. unfold b_txn_get, b_store. cbn [get]. rewrite get_map_val.
+        destruct (get (b_map s) k) as [[v ver]|]; reflexivity.
+      - intros k. rewrite Hzs. unfold b_vers. cbn [get]. apply get_map_val.
+      - intros k v. cbn [get]. discriminate. }
+    pose proof (b_run_sim s (clock c + 1) (o :: rest) _ _ _ _ 0%nat Hinv0 Hops) as H.
+    assert (Hws : sorted (st c)) by (rewrite Hst; apply sorted_map_val; exact Hs).
+    assert (Hzz : sorted (stamps c)) by (rewrite Hzs; apply sorted_map_val; exact Hs).
+    destruct (batch_go ByVersion (clock c + 1) (st c) (stamps c) 0 (o :: rest)) as [[w' z']|[i a]] eqn:E.
+    + destruct H as [p' [seen' [Hr [(Hso & Hg & Hz & _) Hn]]]]. rewrite Hr.
+      cbn [fst snd batch_proj_ok rclass_eqb andb]. split; [reflexivity|].
+      destruct (batch_go_sorted _ _ _ _ _ _ _ _ Hws Hzz E) as [Hw' Hz'].
+      assert (Hp' : p' <> []) by (apply Hn; left; discriminate).
+      unfold b_commit. destruct p' as [|e p'']; [congruence|]. set (p' := e :: p'') in *.
+      set (m' := apply_writes (fun v : bytes => (v, b_ts s + 1)) (b_map s) p').
+      assert (Hm' : sorted m') by (apply apply_writes_sorted; exact Hs).
+      assert (Gm : forall k, get m' k = match get p' k with
+                                        | Some (Some v) => Some (v, b_ts s + 1)
+                                        | Some None => None
+                                        | None => get (b_map s) k
+                                        end).
+      { intros k. unfold m'. apply apply_writes_get. exact Hso. }
+      unfold badger_R. cbn [st stamps clock b_map b_ts]. repeat split.
+      * apply sorted_ext; [exact Hw'|apply sorted_map_val; exact Hm'|].
+        intros k. unfold b_store. cbn [b_map]. rewrite get_map_val, Gm, <- Hg. unfold b_txn_get.
+        destruct (get p' k) as [[v|]|]; try reflexivity.
+      * apply sorted_ext; [exact Hz'|apply sorted_map_val; exact Hm'|].
+        intros k. unfold b_vers. cbn [b_map]. rewrite get_map_val, Gm, Hz, Hck.
+        destruct (get p' k) as [[v|]|]; try reflexivity.
+      * rewrite Hck. reflexivity.
+      * exact Hm'.
+    + destruct H as [k' [v' [Hr [_ Hn]]]]. rewrite Hr. cbn [fst snd batch_proj_ok rclass_eqb andb].
+      split; [|reflexivity]. rewrite Nat.sub_0_r in Hn.
+      destruct (nth_error (o :: rest) i) as [o'|]; [|contradiction].
+      assert (Hi : (if Nat.eqb i 0 then Nat.eqb i 0 else true) = true) by (destruct (Nat.eqb i 0); reflexivity).
+      rewrite Hi. cbn [andb].
+      destruct (bop_is_putnx o') as [k|]; [|reflexivity]. destruct Hn as [-> ->].
+      rewrite beqb_refl. cbn [andb]. destruct (canon_opt a); cbn [opt_eqb]; [apply beqb_refl|reflexivity].
+Qed.
+
+Definition to_item (e : bytes * (bytes * N)) : item := (fst e, fst (snd e), snd (snd e)).
+
+Lemma badger_items s z (l : smap (bytes * N)) :
+  sorted (b_map s) -> z = b_vers s -> (forall e, In e l -> In e (b_map s)) ->
+  map to_item l = map (mk_item ByVersion z) (map (fun e => (fst e, fst (snd e))) l).
+Proof.
+  intros Hs -> Hin. rewrite map_map. apply map_ext_in. intros [k [v ver]] He.
+  unfold to_item, mk_item, stamp_of, b_vers. cbn [fst snd]. rewrite get_map_val.
+  rewrite (in_get (b_map s) k (v, ver) Hs (Hin _ He)). reflexivity.
+Qed.
+
+Lemma b_iter_prefix s c a b l : badger_R s c ->
+  exists n, b_iter s a b l = firstn n (citems ByVersion c a b) /\ (min_count l (length (citems ByVersion c a b)) <= n)%nat.
+Proof.
+  intros (Hst & Hzs & _ & Hs). unfold b_iter. cbv beta zeta.
+  set (m := map (fun e : bytes * (bytes * N) => (fst e, fst (snd e), snd (snd e))) (b_map s)).
+  assert (Hm : ksorted (fun i : item => fst (fst i)) m).
+  { unfold ksorted, m. eapply ssorted_map; [|exact Hs]. intros x y H. exact H. }
+  assert (Hall : forall (p : bytes -> bool),
+             filter (fun i : item => p (fst (fst i))) m =
+             map (mk_item ByVersion (stamps c)) (filter (fun kv : bytes * bytes => p (fst kv)) (st c))).
+  { intros p. unfold m. rewrite filter_map'. cbn [fst snd]. rewrite Hst. unfold b_store. rewrite filter_map'. cbn [fst].
+    apply (badger_items s (stamps c)); [exact Hs|exact Hzs|]. intros e He. apply filter_In in He. tauto. }
+  unfold citems, iter_all, is_fwd, b_is_rev. destruct (bcmp a b) eqn:C.
+  - apply bcmp_eq in C. subst b.
+    pose proof (range_fwd (fun i : item => fst (fst i)) m a a Hm) as Hr. cbv beta in Hr. unfold item in Hr |- *. rewrite Hr; fold item; rewrite (Hall (in_fwd a a)).
+    assert (E1 : filter (fun kv : bytes * bytes => in_fwd a a (fst kv)) (st c) = []).
+    { apply filter_all_false. intros x _. unfold in_fwd. rewrite bleb_negb_bltb. destruct (bltb (fst x) a); reflexivity. }
+    assert (E2 : bwd (st c) a a = []).
+    { pose proof (iter_all_same (st c) a) as H. unfold iter_all, is_fwd in H. rewrite bcmp_refl in H. exact H. }
+    rewrite E1, E2. cbn [map length]. exists 0%nat. unfold lim, min_count.
+    split; [destruct (l =? 0); [reflexivity|apply firstn_nil]|destruct (l =? 0); lia].
+  - pose proof (range_fwd (fun i : item => fst (fst i)) m a b Hm) as Hr. cbv beta in Hr. unfold item in Hr |- *. rewrite Hr; fold item; rewrite (Hall (in_fwd a b)). unfold fwd.
+    destruct (lim_firstn l (map (mk_item ByVersion (stamps c)) (filter (fun kv : bytes * bytes => in_fwd a b (fst kv)) (st c)))) as [n [Hn Hle]].
+    exists n. split; [exact Hn|]. unfold min_count. exact Hle.
+  - pose proof (range_bwd (fun i : item => fst (fst i)) m a b Hm) as Hr. cbv beta in Hr. unfold item in Hr |- *. rewrite Hr; fold item; rewrite (Hall (in_bwd a b)). unfold bwd. rewrite <- map_rev.
+    destruct (lim_firstn l (map (mk_item ByVersion (stamps c)) (rev (filter (fun kv : bytes * bytes => in_bwd a b (fst kv)) (st c))))) as [n [Hn Hle]].
+    exists n. split; [exact Hn|]. unfold min_count. exact Hle.
+Qed.
+
+Definition sbatch_fresh (l : list sbop) : Prop :=
+  written_before_delcur (map (fun o => match o with
+                                       | BPutNX k v t => PutIfNotExist k v t
+                                       | BCAS k nv ov t => CAS k nv ov t
+                                       | BPut k v t => Put k v t
+                                       | BDel k => Del k
+                                       | BDelCurH => DelCur [] [] 0
+                                       end) l) [] = false.
+
+(* a held DelCurrent after any write in the same batch is excluded, whatever key the iterator holds *)
+Fixpoint no_delcur_after_write (l : list sbop) (written : bool) : bool :=
+  match l with
+  | [] => true
+  | BDelCurH :: rest => negb written && no_delcur_after_write rest written
+  | BDel _ :: rest => no_delcur_after_write rest written
+  | _ :: rest => no_delcur_after_write rest true
+  end.
+
+Lemma resolve_fresh h : forall l ops seen, no_delcur_after_write l (negb (match seen with [] => true | _ => false end)) = true ->
+  resolve_all h l = Some ops -> written_before_delcur ops seen = false.
+Proof.
+  induction l as [|o t IH]; intros ops seen Hl; cbn [resolve_all].
+  - intros [= <-]. reflexivity.
+  - destruct (resolve h o) as [x|] eqn:Ex; [|discriminate].
+    destruct (resolve_all h t) as [r|] eqn:Er; [|discriminate]. intros [= <-].
+    destruct o; cbn [resolve] in Ex; cbn [no_delcur_after_write] in Hl.
+    + injection Ex as <-. cbn [written_before_delcur]. apply (IH r (k :: seen)); [exact Hl|reflexivity].
+    + injection Ex as <-. cbn [written_before_delcur]. apply (IH r (k :: seen)); [exact Hl|reflexivity].
+    + injection Ex as <-. cbn [written_before_delcur]. apply (IH r (k :: seen)); [exact Hl|reflexivity].
+    + injection Ex as <-. cbn [written_before_delcur]. apply (IH r seen); [exact Hl|reflexivity].
+    + destruct h as [i|]; [|discriminate]. injection Ex as <-. cbn [written_before_delcur].
+      apply andb_true_iff in Hl as [Hw Hl]. destruct seen as [|k0 seen'].
+      * cbn [existsb orb]. apply (IH r []); [exact Hl|reflexivity].
+      * discriminate.
+Qed.
+
+Definition sim_badger : sim badger ByVersion.
+Proof.
+  refine (mk_sim badger ByVersion badger_R (fun _ => True) (fun ops => written_before_delcur ops [] = false)
+            (fun l => no_delcur_after_write l false = true) _ _ _ _ _ _ _ _ _ _).
+  - intros s c (Hst & _). cbn [a_dump badger]. symmetry. exact Hst.
+  - intros s c k (Hst & _). cbn [a_get badger]. unfold b_get, get_result. rewrite Hst. unfold b_store.
+    rewrite get_map_val. destruct (get (b_map s) k) as [[v ver]|]; reflexivity.
+  - intros s c a b l HR. apply b_iter_prefix. exact HR.
+  - intros; exact I.
+  - intros s c ops HR Hok. apply badger_batch_sim; assumption.
+  - intros s k. reflexivity.
+  - intros s i. reflexivity.
+  - intros k. reflexivity.
+  - intros i _. reflexivity.
+  - intros h l ops Hl _ Hr. apply (resolve_fresh h l ops []); [exact Hl|exact Hr].
+Defined.
+
+(* ====================================================================================== *)
+(* metrics wrapper                                                                         *)
+(* ====================================================================================== *)
+
+Definition sim_wrapper (A : adapter) (m : dcmode) (S : sim A m) : sim (wrapper A) m :=
+  mk_sim (wrapper A) m (sim_R A m S) (item_ok A m S) (okb A m S) (okb_s A m S)
+    (sim_dump A m S) (sim_get A m S) (sim_iter A m S) (sim_item A m S) (sim_batch A m S)
+    (sim_del A m S) (sim_delcur A m S) (okb_del A m S) (okb_delcur A m S) (okb_resolve A m S).
+
+(* ---------- all or nothing, on the models themselves ---------- *)
+
+Lemma mem_atomic s ops : snd (fst (mem_batch_run s ops)) <> ROk -> fst (fst (mem_batch_run s ops)) = s.
+Proof. unfold mem_batch_run. destruct (mb_err _) as [[c cf]|]; cbn [fst snd]; [reflexivity|congruence]. Qed.
+
+Lemma badger_atomic s ops : snd (fst (b_batch s ops)) <> ROk -> fst (fst (b_batch s ops)) = s.
+Proof. unfold b_batch. destruct (b_run s [] 0 ops) as [p|[c cf]]; cbn [fst snd]; [congruence|reflexivity]. Qed.
+
+Lemma tikv_atomic env s ops : snd (fst (t_batch_env env s ops)) <> ROk -> fst (fst (t_batch_env env s ops)) = s.
+Proof.
+  unfold t_batch_env. destruct (t_run s [] 1 ops) as [p|[c cf]]; cbn [fst snd]; [|reflexivity].
+  destruct env; cbn [fst snd]; [congruence|reflexivity|reflexivity|reflexivity].
+Qed.
